@@ -311,6 +311,10 @@ func toValue(value interface{}) Value {
 	case *object:
 		return Value{kind: valueObject, value: value}
 	case *Object:
+		if value == nil {
+			// A nil pointer is undefined, like the nil pointers of the reflect arm below.
+			return Value{}
+		}
 		return Value{kind: valueObject, value: value.object}
 	case Object:
 		return Value{kind: valueObject, value: value.object}
